@@ -129,7 +129,13 @@ T["C09-negative-coefficient"] = (
     "for `e < -p`, which converts `e` to unsigned first (-4 mod 3 -> 4294967292 mod 3 = 0 instead of 2). Same root cause as "
     "the C10 finding on signed `get_value`; listed here because it is observable through the matrix interface that C09 "
     "quantifies over (\"arbitrary coefficients\").",
-    hunks("src/Persistence_matrix/include/gudhi/Fields/Zp_field_operators.h"))
+    "--- a/src/Persistence_matrix/include/gudhi/Fields/Zp_field_operators.h\n"
+    "+++ b/src/Persistence_matrix/include/gudhi/Fields/Zp_field_operators.h\n"
+    "@@ get_value(Signed_integer_type e)\n"
+    "-    if (e < -static_cast<Signed_integer_type>(characteristic_)) e = e % characteristic_;\n"
+    "+    if (e < -static_cast<Signed_integer_type>(characteristic_)) e = e % static_cast<Signed_integer_type>(characteristic_);\n"
+    "(superseded: /repo now carries the integrator's own fix of get_value, so this hunk is no longer part of\n"
+    " findings/C09-suggested-fixes.patch)\n")
 T["C09-swapcolumns-stale-index"] = (
     "wrong result (silent): `get_row` reports entries under the wrong column index (and, with set rows, loses entries)",
     "column indices listed in row 0: 1 1 (expected 0 and 1)",
@@ -195,7 +201,11 @@ for f in fj["findings"]:
     md = []
     md.append("# %s\n" % fid)
     md.append("Property: **C09** (general matrices behave as dense matrices, whatever the column representation)  ")
-    md.append("Status: known (unrepaired) - the generator excludes the trigger while this id is listed in `findings/C09.json`  ")
+    if f.get("status") == "fixed":
+        md.append("Status: **fixed in /repo** (the probe tape holds on the current tree; the exclusion is off and the trigger is "
+                  "generated again)  ")
+    else:
+        md.append("Status: known (unrepaired) - the generator excludes the trigger while this id is listed in `findings/C09.json`  ")
     md.append("Effect: %s\n" % sev)
     md.append("## What fails\n")
     md.append(f["what"] + ".\n")
@@ -204,7 +214,7 @@ for f in fj["findings"]:
     md.append("Standalone program (`clang++-14 -std=gnu++17 -fsanitize=address,undefined -I/repo/src/Persistence_matrix/include "
               "-I/repo/src/common/include x.cpp`):\n")
     md.append("```cpp\n" + PRELUDE + opt + "\nint main() {" + body + "}\n```\n")
-    md.append("Output on the unchanged tree:\n\n```\n" + observed + "\n```\n")
+    md.append("Output on the unchanged tree (before any repair):\n\n```\n" + observed + "\n```\n")
     md.append("Tape: `%s` (%d bytes: `%s`), target `%s`, expected failure class `%s`; replay with "
               "`./check C09 --replay %s` (probe replays run with nothing excluded).\n"
               % (f["probe"], len(tape), tape.hex(), f["target"], f["expect_class"], f["probe"]))
